@@ -178,7 +178,25 @@ class SR(float):
     __index__ = __trunc__ = __floor__ = __ceil__ = __int__
 
     def __round__(s, n=None):
-        raise Unsupported('round() of a symbolic real')
+        """bounded concretisation: fork on the integer the value rounds to (round-half-even as Python does)"""
+        if n is not None:
+            raise Unsupported('round(x, n) of a symbolic real')
+        t = z3.simplify(s.t)
+        if z3.is_rational_value(t):
+            return round(Fraction(t.numerator_as_long(), t.denominator_as_long()))
+        bound = getattr(_E, 'round_bound', 64)
+        order = [0]
+        for k in range(1, bound + 1):
+            order += [k, -k]
+        half = z3.RealVal(Fraction(1, 2))
+        for k in order:
+            lo, hi = z3.RealVal(k) - half, z3.RealVal(k) + half
+            cond = z3.And(t > lo, t < hi)
+            if k % 2 == 0:
+                cond = z3.Or(cond, t == lo, t == hi)
+            if _E.branch(cond):
+                return k
+        raise Pruned('round() beyond +-%d' % bound)
 
     def __floordiv__(s, o):
         raise Unsupported('floordiv')
@@ -348,6 +366,7 @@ class Engine:
                           infeasible=0)
         self._vars = {}
         self._aux = 0
+        self.eager_facts = False
         self.assumptions = []
         self.events = []
 
@@ -383,9 +402,13 @@ class Engine:
 
     def add_path_fact(self, cond):
         """a defining fact for an auxiliary variable (part of the path)."""
+        # kept out of the feasibility solver on purpose (it would make every later query nonlinear): the
+        # auxiliary variable never feeds a branch condition unless the harness says so; obligations are decided
+        # with the facts included (PathResult.path)
         self.facts.append(cond)
-        self.solver.add(cond)
-        self.model = None
+        if self.eager_facts:
+            self.solver.add(cond)
+            self.model = None
 
     # -- solver ---------------------------------------------------------------
     def _check(self, *extra):
